@@ -105,12 +105,11 @@ class ConstantKernel(Kernel):
             A (batch_shape x n1 x n2)-dim, resp. (batch_shape x n1)-dim, tensor of
             constant covariance values if diag is False, resp. True.
         """
-        if last_dim_is_batch:
-            x1 = x1.transpose(-1, -2).unsqueeze(-1)
-            x2 = x2.transpose(-1, -2).unsqueeze(-1)
-
         dtype = torch.promote_types(x1.dtype, x2.dtype)
-        batch_shape = torch.broadcast_shapes(x1.shape[:-2], x2.shape[:-2])
+        # the kernel's own batch shape broadcasts against the inputs' (as for every other kernel)
+        batch_shape = torch.broadcast_shapes(x1.shape[:-2], x2.shape[:-2], self.batch_shape)
+        if last_dim_is_batch:
+            batch_shape = batch_shape + x1.shape[-1:]
         shape = batch_shape + (x1.shape[-2],) + (() if diag else (x2.shape[-2],))
         constant = self.constant.to(dtype=dtype, device=x1.device)
 
